@@ -215,6 +215,18 @@ pub fn load_corpus() -> Corpus {
     }
     // deterministic clause-order enumeration (see gen_sql.rs)
     literals.extend(crate::gen_sql::enumerate());
+    // AST-first: statements generated from the AST schema through the crate's own Deserialize
+    // (fixed seed: the set is a function of the schema only), printed; a printed text that some
+    // dialect accepts is an accepted text like any other
+    if std::path::Path::new(&format!("{}/schema.json", gen_dir())).exists() && std::env::var("VERIF_NO_ASTGEN").is_err() {
+        let g = crate::astgen::AstGen::load();
+        let mut errs = vec![];
+        for st in g.statements(3000, 12345, &mut errs) {
+            if let G::Val(p) = guard(|| st.to_string()) {
+                if p.len() < 600 && !p.trim().is_empty() { literals.push(p); }
+            }
+        }
+    }
     let mut seen = BTreeSet::new();
     literals.retain(|s| seen.insert(s.clone()));
     let ds = all_dialects();
